@@ -29,6 +29,7 @@ func runC08(c *Ctx) {
 	ruleRoutableAPIDelegates(c, "R08.1", "ProducersFor", "DefaultProduces")
 	ruleOffersDefaultLast(c, "R08.2")
 	ruleAuthorizeErrorsVerbatim(c, "R08.5")
+	ruleNormalizeOfferCuts(c, "R08.1")
 	ruleParseAcceptStructure(c, "R08.2") // the negotiated type is chosen among the ranges ParseAccept yields
 	f := p.Fn("(*rt/middleware.Context).Respond")
 	rw, r, route, data := paramOf(f, 0), paramOf(f, 1), paramOf(f, 3), paramOf(f, 4)
@@ -512,7 +513,8 @@ func ruleOffersDefaultLast(c *Ctx, rule string) {
 			if !ok || (bo.Op != token.EQL && bo.Op != token.NEQ) {
 				return false
 			}
-			if !((bo.X == elem && isDefault(bo.Y)) || (bo.Y == elem && isDefault(bo.X))) {
+			isElem := func(v ssa.Value) bool { return v == elem || sameVal(v, elem) } // (the entry may be read again: produces[i] twice)
+			if !((isElem(bo.X) && isDefault(bo.Y)) || (isElem(bo.Y) && isDefault(bo.X))) {
 				return false
 			}
 			return b == (bo.Op == token.NEQ)
@@ -531,7 +533,12 @@ func ruleOffersDefaultLast(c *Ctx, rule string) {
 		if okE && len(elems) == 1 {
 			if ad, isLd := derefLoad(elems[0]); isLd {
 				if ia, isIA := ad.(*ssa.IndexAddr); isIA && produces != nil && ia.X == ssa.Value(produces) {
-					okA = guardedBy(call, ia, notDefault(elems[0]))
+					// from where this iteration's index is fixed: the test concerns the very entry that is appended
+					var from ssa.Instruction = ia
+					if def, isIn := ia.Index.(ssa.Instruction); isIn && def.Block() != nil {
+						from = def
+					}
+					okA = guardedBy(call, from, notDefault(elems[0]))
 				}
 			}
 		}
@@ -566,7 +573,115 @@ func ruleAuthorizeErrorsVerbatim(c *Ctx, rule string) {
 				k, isK := constInt(call.Call.Args[0])
 				return isK && k == 403
 			}))
+		// the generic 401 stands in only when NO scheme reported an error: a scheme's own error (whatever its status) is
+		// never replaced by it
+		if isGeneric, _ := allOrigins(resOf(r, 2), oCall(-1, "github.com/go-openapi/errors.Unauthenticated")); isGeneric {
+			c.obI(rule, r, "generic-401-only-without-scheme-error", guardedBy(r, a, factNil(vIs(aerr), true)), "errors.Unauthenticated is returned only when the authenticators reported no error of their own (err == nil): a rejecting scheme's error is what the client sees", "the generic 401 can replace an error a scheme reported")
+		}
 		c.obI(rule, r, "authentication-error-handed-on-verbatim", ok, "the error Authorize returns is the scheme's own error, errors.Unauthenticated, the authorizer's error or a 403 made from it", "origin "+describeOrigin(bad))
 	}
 	c.obRF(rule, f, "authorize-can-refuse", n >= 1, "Authorize has refusing exits", "")
+}
+
+// ruleNormalizeOfferCuts: normalizeOffer — on which every producer/consumer table key and every offer comparison
+// rests — returns the text of the offer before its first ';' on every path: never a re-parsed (re-cased, validated)
+// form, and never the raw offer while it may still carry parameters. Shared by C07 and C08.
+func ruleNormalizeOfferCuts(c *Ctx, rule string) {
+	f := c.P.Fn("rt/middleware.normalizeOffer")
+	orig := f.Params[0]
+	isOrig := vOrigins(oIsValue(orig))
+	semi := func(v ssa.Value) bool {
+		if s, ok := constString(v); ok {
+			return s == ";"
+		}
+		k, ok := constInt(v)
+		return ok && k == ';'
+	}
+	isIdx := func(v ssa.Value) bool {
+		call := asCall(v)
+		if call == nil {
+			return false
+		}
+		switch calleeName(&call.Call) {
+		case "strings.Index", "strings.IndexByte", "strings.IndexRune":
+			return isOrig(call.Call.Args[0]) && semi(call.Call.Args[1])
+		}
+		return false
+	}
+	// "there is no ';' in the offer"
+	noSemi := func(cond ssa.Value, branch bool) bool {
+		cnd, b := stripNot(cond, branch)
+		if call := asCall(cnd); call != nil && (calleeName(&call.Call) == "strings.Contains" || calleeName(&call.Call) == "strings.ContainsRune") {
+			return !b && isOrig(call.Call.Args[0]) && semi(call.Call.Args[1])
+		}
+		if ex, isEx := cnd.(*ssa.Extract); isEx {
+			if call := asCall(ex.Tuple); call != nil && calleeName(&call.Call) == "strings.Cut" && ex.Index == 2 {
+				return !b && isOrig(call.Call.Args[0]) && semi(call.Call.Args[1])
+			}
+		}
+		bo, ok := cnd.(*ssa.BinOp)
+		if !ok || !isIdx(bo.X) {
+			return false
+		}
+		k, isK := constInt(bo.Y)
+		if !isK {
+			return false
+		}
+		switch bo.Op {
+		case token.LSS:
+			return k == 0 && b
+		case token.GEQ:
+			return k == 0 && !b
+		case token.EQL:
+			return k == -1 && b
+		case token.NEQ:
+			return k == -1 && !b
+		case token.GTR:
+			return k == -1 && !b
+		}
+		return false
+	}
+	n := 0
+	for _, r := range realReturns(f) {
+		if len(r.Results) != 1 {
+			continue
+		}
+		n++
+		ok, bad := allOrigins(resOf(r, 0), func(o Origin) bool {
+			switch x := o.V.(type) {
+			case *ssa.UnOp:
+				// strings.SplitN(orig, ";", n)[0] / strings.Split(orig, ";")[0]
+				ia, isIA := x.X.(*ssa.IndexAddr)
+				if x.Op != token.MUL || !isIA {
+					return false
+				}
+				if k, isK := constInt(ia.Index); !isK || k != 0 {
+					return false
+				}
+				call := asCall(ia.X)
+				if call == nil {
+					return false
+				}
+				switch calleeName(&call.Call) {
+				case "strings.SplitN":
+					k, isK := constInt(call.Call.Args[2])
+					return isOrig(call.Call.Args[0]) && semi(call.Call.Args[1]) && isK && (k >= 2 || k < 0)
+				case "strings.Split":
+					return isOrig(call.Call.Args[0]) && semi(call.Call.Args[1])
+				}
+				return false
+			case *ssa.Call:
+				// before, _, _ := strings.Cut(orig, ";")
+				return o.Index == 0 && calleeName(&x.Call) == "strings.Cut" && isOrig(x.Call.Args[0]) && semi(x.Call.Args[1])
+			case *ssa.Slice:
+				return isOrig(x.X) && x.Low == nil && x.High != nil && isIdx(x.High)
+			case *ssa.Parameter:
+				// the offer itself, when it has no ';'
+				return x == orig && guardedBy(r, nil, noSemi)
+			}
+			return false
+		})
+		c.obI(rule, r, "offer-cut-at-first-semicolon", ok, "normalizeOffer returns the offer's text before its first ';' (the offer itself when there is none): table keys and offers are compared in exactly that form", "it can return "+describeOrigin(bad))
+	}
+	c.obRF(rule, f, "normalizeOffer-returns", n >= 1, "normalizeOffer returns a string", "")
 }
